@@ -15,6 +15,7 @@ PID = 'C16'
 REMOTE = os.path.join(os.environ.get('VERIF_REPO', '/repo'), 'supp', 'remote.py')
 BMC_TIMEOUT_MS = 40000
 SERVER_HARNESS = os.path.join(runner.VERIF, 'harness', 'h_c16_server.py')
+LAUNCH_HARNESS = os.path.join(runner.VERIF, 'harness', 'h_c16_launch.py')
 
 
 def scenarios(tier):
@@ -207,17 +208,34 @@ def run(tier, seed):
     tw = src + '\n\n' + _twin(src)
     qs = [Query('server_exits', src, 'server_exits', 'main', 120 if tier == 'quick' else 300, label='E'),
           Query('server_exits__twin', tw, 'server_exits__twin', 'twin', 60)]
-    runner.run_queries(PID, qs)
+    ls = open(LAUNCH_HARNESS).read()
+    from props.simple import copy_fn
+    lq = []
+    slices = ['n == 1', 'n == 2', 'n == 3'] + ['n == 4 and k0 == %d' % k for k in range(4)]
+    if tier != 'quick':
+        slices += ['n == 5 and k0 == %d and k1 == %d' % (a, b) for a in range(4) for b in range(4)]
+    for i, pre in enumerate(slices):
+        new = 'launch_%02d' % i
+        lq.append(Query(new, ls + '\n\n' + copy_fn(ls, 'launch', new, pre), new, 'main', 400 if tier == 'quick' else 1500,
+                        per_path=60, meta={'fn': 'launch'}, label='S'))
+    lq.append(Query('launch__twin', ls + '\n\n' + copy_fn(ls, 'launch', 'launch__twin', 'n == 2', twin=True), 'launch__twin', 'twin', 60,
+                    meta={'fn': 'launch'}))
+    runner.run_queries(PID, qs + lq)
     rep.absorb(qs, _replay_server)
-    rep.functions = ['supp.remote.Environment.prepare', 'run', '_threaded_run', '_call', 'close',
+    rep.absorb(lq, _replay_launch)
+    qs = qs + lq
+    rep.functions = ['supp.remote.Environment._run (launch handshake: retry loop and deadline, real code with stubbed Popen/Client/clock)', 'supp.remote.Environment.prepare', 'run', '_threaded_run', '_call', 'close',
                      '_run (summarised: Popen assignment, Client assignment)', 'supp.server.Server.run', 'Server.process']
     rep.bounds = ['%d scenarios of <= 3 client threads (+ starter threads), each thread a sequence of prepare / first call / close' % len(scns),
                   'schedule symbolic, BMC bound = total instruction count of the scenario (no loops: complete for the scenario)',
                   'line granularity; with-exit and join-wait are extra schedulable steps',
                   'close() concurrent with a call on another thread is outside (needs external synchronisation by design)',
-                  'server side: scripts of <= 3 messages from {request, close, EOF, undecodable}']
+                  'server side: scripts of <= 3 messages from {request, close, EOF, undecodable}',
+                  'launch handshake: scripts of <= %d connection attempts, symbolic clock (whole seconds)' % (4 if tier == 'quick' else 5)]
     rep.assumptions = [
-        'Popen and Client succeed at the first attempt (launch failure outside); _run is summarised by its two shared-state effects',
+        'interleavings: Popen and Client succeed at the first attempt and _run is summarised by its two shared-state effects; the retry loop of _run is '
+        'checked separately and sequentially (launch handshake: <= 5 connection attempts failing with FileNotFoundError / ConnectionRefusedError / OSError or '
+        'succeeding, the clock any non-decreasing integer sequence that may move at each read and each sleep); a real process that dies is outside',
         'opaque argument expressions evaluated once concretely in the real module namespace',
         'translation validated on every run by replaying sequential + random schedules on real threads (sys.settrace line scheduler) and comparing outcomes; and by explicit-state enumeration of the same IR',
         'sub-line (bytecode-level) preemption outside',
@@ -242,6 +260,20 @@ def _match_known(known, name, rbad):
         if m.get('scenario') == name and any(m.get('problem', '') in b for b in rbad):
             return k['what']
     return None
+
+
+def _replay_launch(q, args, kwargs):
+    h = runner.load_module(LAUNCH_HARNESS, 'h_c16_launch_native')
+    n = args[0]
+    kinds = list(args[1:6])[:n]
+    bad, out = h.handshake(kinds, args[6], list(args[7:13]), list(args[13:18]))
+    if not bad:
+        return {'violated': False}
+    names = ['FileNotFoundError', 'ConnectionRefusedError', 'OSError', 'success']
+    return {'violated': True, 'known': None,
+            'what': 'launch handshake, attempts %r, clock start %r, advance per read %r, per sleep %r: %s (outcome %r)'
+                    % ([names[k] for k in kinds], args[6], list(args[7:13]), list(args[13:18]), '; '.join(bad), out),
+            'replay': {'launch_args': list(args)}}
 
 
 def _twin(src):
@@ -275,7 +307,10 @@ def replay_file(obj):
             return 1
         print('not reproduced')
         return 0
-    v = _replay_server(None, [len(obj['script'])] + (obj['script'] + [0, 0, 0])[:3], {})
+    if 'launch_args' in obj:
+        v = _replay_launch(None, obj['launch_args'], {})
+    else:
+        v = _replay_server(None, [len(obj['script'])] + (obj['script'] + [0, 0, 0])[:3], {})
     if v['violated']:
         print('VIOLATION property=%s replay=given' % PID)
         print('  ' + v['what'])
